@@ -104,7 +104,9 @@ func (r restClientProtocol) addProtocolResponseHeaders(meta responseMeta, header
 	isErr := meta.end != nil && meta.end.err != nil
 	// Only JSON is supported for now unless using google.api.HttpBody
 	// payloads which override the content-type.
-	if headers["Content-Type"] == nil {
+	if isErr || headers["Content-Type"] == nil {
+		// (an error is always sent as a Status in the codec's format, whatever
+		// media type a google.api.HttpBody message announced before it)
 		headers["Content-Type"] = []string{contentRestPrefix + meta.codec}
 	}
 	if !isErr && meta.compression != "" {
